@@ -90,6 +90,7 @@ func (g *DSLGen) distinct(n int, ext bool) []string {
 var paramTypes = []string{"bool", "string", "int", "uint", "double", "duration", "timestamp", "ipaddress"}
 var condNames = []string{"c1", "is_valid", "non_expired", "in_range", "x-cond", "_c", "cond2"}
 var condExprs = []string{
+	"x % 2 == 0", "s == \"100%\" || x % y > 0",
 	"s == \"naïve ü 日本\"", "'😀' in l",
 	"x < 10", "a == b && c != d", "x in [1, 2, 3]", "ip.in_cidr(cidr)", "t + d > now",
 	"m[\"k\"] == 'v'", "!(a || b) ? c : d", "x > 1.5e3 && y <= 0x1F", "s.startsWith(\"a b\")",
